@@ -23,11 +23,16 @@ def signature(f):
     ev = d.get("event") or {}
     if d.get("kind") == "trace-rejected":
         return "emitbin run-rejected prog=%s format=%s" % (ev.get("prog"), ev.get("format"))
+    if (f.get("case") or {}).get("many"):
+        return "emitter many-lints %s %s" % (d.get("kind"), d.get("what", "")[:80])
     return "emitter %s %s" % (d.get("kind"), d.get("what", ""))
 
 
 def run(ctx):
     ctx.tlc("MC_Emitter", "MC_Emitter_" + ctx.tier, replay="emitter", required_actions=["DoSkipAllowed", "DoEmitOne"])
     ctx.tlc("MC_EmitBin", "MC_EmitBin", replay="emitbin", coverage=False)
+    # the many-lints program of C13 (seven lints, three kinds, suppressions at nine places): what is written in both formats
+    # is exactly the lints the model says are not suppressed, once each, in recorded order
+    ctx.tlc("MC_ManyLints", "MC_ManyLints_one" if ctx.quick else "MC_ManyLints", replay="lints", coverage=False, env={"VERIF_LINTS_MODE": "emit"}, label="MC_ManyLints(emitted)")
     trace = ctx.collect_events("emitbin")
     ctx.validate_events("Trace_Emitter", trace)
